@@ -20,7 +20,9 @@ def build(asm_expanded):
     u.prelude = [_read('std.rs'), _read('vm_spec.rs')]
 
     # ------------------------------------------------------------------ crate root (lib.rs)
-    root = u.module('', file='crates/vm/src/lib.rs', uses='pub use crate::stack::Stack;')
+    root = u.module('', file='crates/vm/src/lib.rs', uses='''pub use crate::stack::Stack; pub use crate::memory::Memory; pub use crate::repeat::Repeat;
+pub use crate::essential_asm as asm; pub use crate::essential_asm::Op; pub use crate::essential_types as types;
+pub use crate::total_control_flow::ProgramControlFlow;''')
     root.item('type Gas')
     root.item('struct GasLimit')
     # ------------------------------------------------------------------ essential-types
@@ -140,4 +142,153 @@ broadcast use {crate::iter_items_array, crate::iter_items_vec};
             len <= slice@.len() ==> r is Ok && r->Ok_0.0@ =~= slice@.take(slice@.len() - len) && r->Ok_0.1@ =~= slice@.skip(slice@.len() - len),
             len > slice@.len() ==> r is Err""", props=('C05', 'C08')))
     st.impl('impl core::ops::Deref for Stack', [('type', 'Target'), F('deref', ensures='r@ == self@', props=('C05',))])
+
+    # ------------------------------------------------------------------ essential-asm op enums (macro-expanded text)
+    am = u.module('essential_asm', file=asm_expanded, uses='pub use crate::essential_types::Word; use crate::essential_types;')
+    for e in ('Op', 'Stack', 'Pred', 'Alu', 'Access', 'Crypto', 'TotalControlFlow', 'Memory', 'ParentMemory', 'StateRead', 'Compute'):
+        am.item(['mod op', 'enum ' + e], extra_attrs='#[derive(Clone, Copy, PartialEq, Eq)]\n')
+    u.log.rw('D5', 'essential_asm', 'expanded `impl Clone/Copy/PartialEq/Eq for <op enum>`', '#[derive(Clone, Copy, PartialEq, Eq)] (what asm-gen emits)')
+
+    # ------------------------------------------------------------------ memory
+    me = u.module('memory', file='crates/vm/src/memory.rs', uses='use crate::essential_types::Word; use crate::error::MemoryError; use crate::*;')
+    me.item('struct Memory')
+    me.spec('''impl View for Memory { type V = Seq<i64>; closed spec fn view(&self) -> Seq<i64> { self.0@ } }
+// T-std: #[derive(Default)] on a struct of Vecs yields empty Vecs
+pub assume_specification [<Memory as core::default::Default>::default] () -> (r: Memory) ensures r@ =~= Seq::<i64>::empty();
+''')
+    MW, MWE = 'mem_wf(old(self)@)', 'mem_wf(final(self)@)'
+    me.impl('impl Memory', [
+        ('const', 'SIZE_LIMIT'),
+        F('new', ensures='r@ == Seq::<i64>::empty()', props=('C05', 'C10')),
+        F('alloc', requires=MW, ensures=MWE + """,
+            0 <= size && old(self)@.len() + size <= 10240 ==> r is Ok && final(self)@ =~= old(self)@ + zeros(size as nat),
+            !(0 <= size && old(self)@.len() + size <= 10240) ==> r is Err && final(self)@ == old(self)@""", props=('C05', 'C08')),
+        F('store', requires=MW, ensures=MWE + """,
+            0 <= address < old(self)@.len() ==> r is Ok && final(self)@ =~= old(self)@.update(address as int, value),
+            !(0 <= address < old(self)@.len()) ==> r is Err && final(self)@ == old(self)@""", props=('C05', 'C08')),
+        F('load', ensures="""
+            0 <= address < self@.len() ==> r == Ok::<Word, MemoryError>(self@[address as int]),
+            !(0 <= address < self@.len()) ==> r is Err""", props=('C05', 'C08')),
+        F('store_range', requires=MW, ensures=MWE + """,
+            0 <= address && address + values@.len() <= old(self)@.len() ==> r is Ok &&
+                final(self)@ =~= old(self)@.take(address as int) + values@ + old(self)@.skip(address + values@.len()),
+            !(0 <= address && address + values@.len() <= old(self)@.len()) ==> r is Err && final(self)@ == old(self)@,
+            final(self)@.len() == old(self)@.len()""", props=('C05', 'C08', 'C11')),
+        F('load_range', ensures="""
+            0 <= address && 0 <= size && address + size <= self@.len() ==> r is Ok && r->Ok_0@ =~= self@.subrange(address as int, address + size),
+            !(0 <= address && 0 <= size && address + size <= self@.len()) ==> r is Err""", props=('C05', 'C08')),
+        F('free', requires=MW, ensures=MWE + """,
+            0 <= new_len <= old(self)@.len() ==> r is Ok && final(self)@ =~= old(self)@.take(new_len as int),
+            !(0 <= new_len <= old(self)@.len()) ==> r is Err && final(self)@ == old(self)@""", props=('C05', 'C08')),
+        F('len', requires='mem_wf(self@)', ensures='r == Ok::<Word, MemoryError>(self@.len() as i64)',
+          props=('C05', 'C08')),
+        F('is_empty', ensures='r == (self@.len() == 0)', props=('C05',)),
+    ])
+    me.spec('''impl vstd::std_specs::convert::TryFromSpecImpl<Vec<Word>> for Memory {
+    open spec fn obeys_try_from_spec() -> bool { false }
+    open spec fn try_from_spec(v: Vec<Word>) -> Result<Self, Self::Error> { Err(MemoryError::Overflow) } }
+''')
+    me.impl('impl TryFrom<Vec<Word>> for Memory', [('type', 'Error'),
+            F('try_from', ensures='words@.len() <= 10240 ==> r is Ok && r->Ok_0@ == words@, words@.len() > 10240 ==> r is Err', props=('C05',))])
+    me.impl('impl core::ops::Deref for Memory', [('type', 'Target'), F('deref', ensures='r@ == self@', props=('C05',))])
+
+    # ------------------------------------------------------------------ alu
+    al = u.module('alu', file='crates/vm/src/alu.rs', uses='use crate::essential_types::Word; use crate::error::{AluError, OpResult}; use crate::*;')
+
+    def alu(name, sp, **kw):
+        return F(name, ensures='match crate::%s(a, b) { Some(v) => r is Ok && r->Ok_0 == v, None => r is Err }' % sp, props=('C05', 'C08'), **kw)
+    al.fn('add', alu('add', 'sp_add'))
+    al.fn('sub', alu('sub', 'sp_sub'))
+    al.fn('mul', alu('mul', 'sp_mul'))
+    al.fn('div', alu('div', 'sp_div', head_proof='if b != 0 { crate::lemma_rust_div(a as int, b as int); }'))
+    al.fn('mod_', alu('mod_', 'sp_mod', head_proof='if b != 0 { crate::lemma_rust_div(a as int, b as int); }'))
+    al.fn('shl', alu('shl', 'sp_shl'))
+    al.fn('shr', alu('shr', 'sp_shr'))
+    al.fn('arithmetic_shr', alu('arithmetic_shr', 'sp_shri'))
+    al.item('const BITS_IN_WORD', rewrites=[('R11', 'const BITS_IN_WORD: Word = core::mem::size_of::<Word>() as Word * 8;',
+        'exec const BITS_IN_WORD: Word ensures BITS_IN_WORD == 64 { core::mem::size_of::<Word>() as Word * 8 }')])
+    al.fn('check_shift_bounds', F('check_shift_bounds', ensures='0 <= b < 64 ==> r is Ok, !(0 <= b < 64) ==> r is Err', props=('C05', 'C08')))
+
+    # ------------------------------------------------------------------ pred
+    pr = u.module('pred', file='crates/vm/src/pred.rs', uses='use crate::error::{OpError, OpResult, StackError}; use crate::essential_types::Word; use crate::*;')
+    pr.fn('eq_range', F('eq_range', requires='stack_wf(old(stack)@)', ensures="""stack_wf(final(stack)@),
+            match crate::sp_eq_range(old(stack)@) { Some(s) => r is Ok && final(stack)@ =~= s, None => r is Err }""",
+          rewrites=[('R9', '|words| {', '''|words: &[Word]| -> (o: Result<bool, OpError>)
+                requires len <= words@.len(), ensures o == Ok::<bool, OpError>(words@.take(len as int) == words@.skip(len as int)) {''')],
+          hints=[('Ok(a == b)', 'before', 'assert(<[i64] as vstd::std_specs::cmp::PartialEqSpec<[i64]>>::obeys_eq_spec()); assert((a@ == b@) == (a@ =~= b@));'),
+                 ('stack.push(eq.into())?;', 'before', '''let t = old(stack)@.drop_last(); let l = len as int; let base = t.len() - 2 * l;
+                    let w = crate::lw_words(t.push(double));
+                    assert(w =~= t.subrange(base, t.len() as int));
+                    assert(w.take(l) =~= t.subrange(base, base + l));
+                    assert(w.skip(l) =~= t.subrange(base + l, base + 2 * l));
+                    assert(crate::lw_rest(t.push(double)) =~= t.take(base));''')],
+          props=('C05', 'C08')))
+
+    # ------------------------------------------------------------------ repeat
+    rp = u.module('repeat', file='crates/vm/src/repeat.rs', uses="""use crate::essential_types::{convert::bool_from_word, Word};
+use crate::error::{OpResult, RepeatError, RepeatResult, StackError}; use crate::*;""")
+    rp.item('struct Repeat')
+    rp.item('struct Slot')
+    rp.item('enum Direction')
+    rp.spec("""
+pub struct SlotS { pub counter: i64, pub up: Option<i64>, pub start: int }
+impl View for Slot { type V = SlotS;
+    closed spec fn view(&self) -> SlotS { SlotS { counter: self.counter, up: match self.limit { Direction::Up(l) => Some(l), Direction::Down => None }, start: self.repeat_index as int } } }
+impl View for Repeat { type V = Seq<SlotS>; closed spec fn view(&self) -> Seq<SlotS> { self.stack@.map_values(|s: Slot| s@) } }
+pub assume_specification [<Repeat as core::default::Default>::default] () -> (r: Repeat) ensures r@ =~= Seq::<SlotS>::empty();
+""")
+    RW, RWE = 'repeat_wf(old(self)@)', 'repeat_wf(final(self)@)'
+    rp.fn('repeat', F('repeat', params={'repeat': 'repeat_'}, requires='stack_wf(old(stack)@), repeat_wf(old(repeat_)@)', ensures="""
+            stack_wf(final(stack)@), repeat_wf(final(repeat_)@),
+            match crate::sp_repeat_begin(pc as int, old(stack)@, old(repeat_)@) {
+                Some((s, rs)) => r is Ok && final(stack)@ =~= s && final(repeat_)@ =~= rs,
+                None => r is Err && final(repeat_)@ == old(repeat_)@ }""",
+          rewrites=[('R2', 'let [num_repeats, count_up] = stack.pop2()?;', 'let t2 = stack.pop2()?; let num_repeats = t2[0]; let count_up = t2[1];')],
+          props=('C05', 'C09')))
+    rp.impl('impl Repeat', [
+        F('new', ensures='r@ =~= Seq::<SlotS>::empty()', props=('C09',)),
+        F('repeat_from', requires=RW, ensures=RWE + """,
+            old(self)@.len() < 4096 ==> r is Ok && final(self)@ =~= old(self)@.push(SlotS { counter: amount, up: None, start: location as int }),
+            old(self)@.len() >= 4096 ==> r is Err && final(self)@ == old(self)@""", props=('C05', 'C09')),
+        F('repeat_to', requires=RW, ensures=RWE + """,
+            old(self)@.len() < 4096 ==> r is Ok && final(self)@ =~= old(self)@.push(SlotS { counter: 0, up: Some(limit), start: location as int }),
+            old(self)@.len() >= 4096 ==> r is Err && final(self)@ == old(self)@""", props=('C05', 'C09')),
+        F('counter', ensures="""self@.len() > 0 ==> r == Ok::<Word, RepeatError>(self@.last().counter), self@.len() == 0 ==> r is Err""",
+          rewrites=[('R9', '|s| s.counter', '|s: &Slot| -> (c: Word) ensures c == s@.counter { s.counter }')], props=('C05', 'C09', 'C12')),
+        F('repeat', requires=RW, ensures=RWE + """,
+            old(self)@.len() == 0 ==> r is Err && final(self)@ == old(self)@,
+            old(self)@.len() > 0 ==> ({ let sl = old(self)@.last(); let rest = old(self)@.drop_last();
+                match crate::sp_repeat_end(sl) {
+                    (None, _) => r == Ok::<Option<usize>, RepeatError>(None) && final(self)@ =~= rest,
+                    (Some(sl2), _) => r == Ok::<Option<usize>, RepeatError>(Some(sl.start as usize)) && final(self)@ =~= rest.push(sl2) } })""",
+          props=('C05', 'C09')),
+    ])
+
+    # ------------------------------------------------------------------ total_control_flow
+    tc = u.module('total_control_flow', file='crates/vm/src/total_control_flow.rs', uses="""
+use crate::error::{OpError, OpResult, StackError, TotalControlFlowError}; use crate::{Gas, Stack};
+use crate::essential_types::convert::bool_from_word; use crate::*;""")
+    tc.item('enum ProgramControlFlow')
+    tc.fn('jump_if', F('jump_if', requires='stack_wf(old(stack)@)', ensures="""stack_wf(final(stack)@),
+            old(stack)@.len() < 2 ==> r is Err,
+            old(stack)@.len() >= 2 ==> ({ let n = old(stack)@.len() as int;
+                final(stack)@ =~= old(stack)@.take(n - 2) &&
+                match crate::sp_jump_target(pc as int, old(stack)@[n - 2], old(stack)@[n - 1]) {
+                    None => r is Err,
+                    Some(None) => r is Ok && r->Ok_0 is None,
+                    Some(Some(p)) => r is Ok && r->Ok_0 == Some(ProgramControlFlow::Pc(p as usize)) } })""",
+          rewrites=[('R2', 'let [dist, cond] = stack.pop2()?;', 'let t2 = stack.pop2()?; let dist = t2[0]; let cond = t2[1];')],
+          props=('C05', 'C09')))
+    tc.fn('halt_if', F('halt_if', requires='stack_wf(old(stack)@)', ensures="""stack_wf(final(stack)@),
+            old(stack)@.len() < 1 ==> r is Err,
+            old(stack)@.len() >= 1 ==> final(stack)@ =~= old(stack)@.drop_last() && match w2b(old(stack)@.last()) {
+                None => r is Err,
+                Some(false) => r is Ok && r->Ok_0 is None,
+                Some(true) => r is Ok && r->Ok_0 == Some(ProgramControlFlow::Halt) }""", props=('C05', 'C09')))
+    tc.fn('panic_if', F('panic_if', mode='assumed', requires='stack_wf(old(stack)@)', ensures="""stack_wf(final(stack)@),
+            old(stack)@.len() < 1 ==> r is Err,
+            old(stack)@.len() >= 1 ==> final(stack)@ =~= old(stack)@.drop_last() && match w2b(old(stack)@.last()) {
+                None => r is Err, Some(false) => r is Ok, Some(true) => r is Err }""",
+          note='`.iter().copied()` is a provided trait method Verus cannot specify; Kani K2 through step_op_total_control_flow(PanicIf)',
+          props=('C05', 'C09')))
     return u
